@@ -3,9 +3,10 @@ from ..rx import Regex, Unsupported
 
 RANGES = {
     "d": ["%02d" % i for i in range(1, 32)] + ["%2d" % i for i in range(1, 10)],
-    "m": ["%02d" % i for i in range(1, 13)],
-    "H": ["%02d" % i for i in range(0, 24)],
-    "I": ["%02d" % i for i in range(1, 13)],
+    # blank-padded one-digit values are what many logs carry (syslog day, old MariaDB hour) and what strptime accepts for these directives
+    "m": ["%02d" % i for i in range(1, 13)] + ["%2d" % i for i in range(1, 10)],
+    "H": ["%02d" % i for i in range(0, 24)] + ["%2d" % i for i in range(0, 10)],
+    "I": ["%02d" % i for i in range(1, 13)] + ["%2d" % i for i in range(1, 10)],
     "M": ["%02d" % i for i in range(0, 60)],
     "S": ["%02d" % i for i in range(0, 61)],
     "y": ["%02d" % i for i in range(0, 100)],
